@@ -34,7 +34,7 @@ def generate(seed, tier="quick"):
     d["profile"] = rnd.choice(["flat", "flat", "weak", "weak", "informative"])  # many acceptances => many draws
     d["orbit_from"] = None
     ops = []
-    expensive = rnd.random() < (0.10 if tier == "quick" else 0.15)
+    expensive = rnd.random() < 0.15
     n_ops = rnd.randint(2, 5)
     all_explicit = True
     for oid in range(n_ops):
